@@ -128,6 +128,18 @@ def run(cs, tier, run_index):
         interloper = X.XORGame(p2, f2, reps)
         res.probe("two_objects_same_shape")
 
+    if cfg.draw(4) == 3:
+        # an object of the same shape that is used and dropped before the history starts: anything keyed on id()
+        # of a dead object, or cached per shape, meets the main object afterwards
+        import gc
+
+        pe, fe, _, _ = draw_game(cs.s("game:e"), like=meta)
+        tmp = X.XORGame(pe, fe, reps)
+        call_value(op_fn(tmp, "quantum"), res, "quantum(ephemeral object)")
+        del tmp, pe, fe
+        gc.collect()
+        res.probe("ephemeral_object_before_history")
+
     # reference models (single-shot)
     gp, gv = models.xor_to_general(prob, pred)
     cl1 = models.xor_classical_bf(prob, pred)
